@@ -23,6 +23,9 @@ impl Check for C17 {
         tier.pick(6_000, 300_000)
     }
     fn run_case(&self, src: &mut Src, obs: &mut Obs) -> Result<(), Fail> {
+        if src.chance(1, 12) {
+            return run_int(src, obs);
+        }
         let two_d = src.chance(1, 3);
         match (two_d, src.chance(1, 5)) {
             (false, false) => run::<f64>(src, obs, false),
@@ -71,6 +74,69 @@ enum Outcome {
 enum Subject<'a, T: Flt> {
     One(&'a (dyn I1<T> + Send + Sync)),
     Two(&'a (dyn I2<T> + Send + Sync)),
+}
+
+/// integer element types (i64, also beyond 2^53 where neighbouring values are not distinguishable as f64; i32): Linear
+/// histories of scalar and batch queries on one interpolator against a fresh interpolator per query
+fn run_int(src: &mut Src, obs: &mut Obs) -> Result<(), Fail> {
+    use ndarray::Array1;
+    use ndarray_interp::interp1d::{Interp1DBuilder, Linear};
+    obs.class("elem:integer");
+    let big = src.chance(2, 3);
+    obs.class(if big { "elem:i64-beyond-2^53" } else { "elem:i64-small" });
+    let n = src.usize_in(3, 40);
+    let t0: i64 = if big { (1i64 << src.usize_in(53, 61)) + src.int_in(0, 1000) } else { src.int_in(-50, 50) };
+    let mut x = vec![t0];
+    for _ in 1..n {
+        let step = if src.bool() { src.int_in(1, 4) } else { src.int_in(50, 300) };
+        x.push(x.last().unwrap() + step);
+    }
+    let y: Vec<i64> = (0..n).map(|_| src.int_in(-1000, 1000) * 500).collect();
+    let extrapolate = src.chance(1, 4);
+    let build = || Interp1DBuilder::new(Array1::from_vec(y.clone())).x(Array1::from_vec(x.clone())).strategy(Linear::new().extrapolate(extrapolate)).build();
+    let shared = match build() {
+        Ok(i) => i,
+        Err(e) => fail!("build-failed", "valid i64 axis rejected: {e}; x = {:?}", x),
+    };
+    let nops = src.usize_in(4, 60);
+    let mut prev: Option<i64> = None;
+    for k in 0..nops {
+        let i = src.below(n as u64 - 1) as usize;
+        let q = match src.below(6) {
+            0 => x[i],
+            1 => x[i + 1] - 1,
+            2 => x[i] + 1,
+            3 => x[i] + (x[i + 1] - x[i]) / 2,
+            // close to the previous query: another interval whose float image may coincide
+            4 if prev.is_some() => (prev.unwrap() + src.int_in(-120, 120)).clamp(x[0], x[n - 1]),
+            _ => x[i] + src.int_in(0, x[i + 1] - x[i]),
+        }
+        .clamp(x[0], x[n - 1]);
+        prev = Some(q);
+        let batch = src.chance(1, 4);
+        let fresh = build().unwrap();
+        obs.asserts += 1;
+        if batch {
+            let q2 = (q + src.int_in(-150, 150)).clamp(x[0], x[n - 1]);
+            let qa = Array1::from_vec(vec![q, q2, q]);
+            let got = catch(|| shared.interp_array(&qa).map(|a| a.to_vec()).map_err(|e| e.to_string()));
+            let want: Vec<Result<i64, String>> = [q, q2, q].iter().map(|&v| build().unwrap().interp_scalar(v).map_err(|e| e.to_string())).collect();
+            let want: Result<Vec<i64>, String> = want.into_iter().collect();
+            if got != Ok(want.clone()) {
+                fail!("history-dependence/integer-axis", "i64 Linear, x = {:?}..., operation {k}: interp_array({:?}) on the used interpolator gives {:?}, fresh interpolators give {:?}", &x[..n.min(6)], [q, q2, q], got, want);
+            }
+        } else {
+            let got = catch(|| shared.interp_scalar(q).map_err(|e| e.to_string()));
+            let want = fresh.interp_scalar(q).map_err(|e| e.to_string());
+            if got != Ok(want.clone()) {
+                fail!("history-dependence/integer-axis", "i64 Linear, x = {:?}..., operation {k}: interp_scalar({q}) on the used interpolator gives {:?}, a fresh interpolator gives {:?}", &x[..n.min(6)], got, want);
+            }
+        }
+    }
+    obs.nontrivial = true;
+    obs.key(&(x.clone(), y.clone(), nops));
+    obs.describe(|| json!({"elem": "i64", "x": x.iter().take(8).collect::<Vec<_>>(), "operations": nops}));
+    Ok(())
 }
 
 fn exec<T: Flt>(s: &Subject<T>, op: &Op<T>) -> Outcome {
